@@ -300,7 +300,10 @@ def _check_nodes_loop(ctx, f):
                     pre = ("call", tg.func.qual, (eng.ev(tg.recv, f, st),) + tuple(args), ())
                 if nm == "traverse" and tg.func.cls.name == "HexaryTrie":
                     seen["traverse"] += 1
-                    if args != [eng.ev(ast.Name(id="nearest_prefix", ctx=ast.Load()), f, st)] and pre is not None and args != [pre]:
+                    a0 = ev.node.args[0] if len(ev.node.args) == 1 else None
+                    bs = ctx.E.bindings(f).get(a0.id, []) if isinstance(a0, ast.Name) else []
+                    chosen = bool(bs) and all(isinstance(b, ast.Call) and any(t.kind == "def" and t.func.name == "nearest_right" for t in ctx.R.resolve_call(b, f, count=False)) for b in bs)
+                    if not chosen:
                         problems.append("traverse() is not called with the chosen prefix")
                 if nm == "traverse_from" and tg.func.cls.name == "HexaryTrie":
                     seen["traverse_from"] += 1
@@ -610,6 +613,16 @@ def prov6(ctx, pid):
 def _check_explore_refusals(ctx, f, old):
     """duplicate check and nested-prefix check of explore (structure by provenance)."""
     eng = S(ctx)
+    # the validated segment list: the local bound to [Nibbles(s) for s in <segments parameter>]
+    SEG = None
+    for name, bs in ctx.E.bindings(f).items():
+        for b in bs:
+            if isinstance(b, ast.ListComp) and isinstance(b.generators[0].iter, ast.Name) and b.generators[0].iter.id == f.params[2] \
+                    and isinstance(b.elt, ast.Call) and ast.unparse(b.elt.func) == "Nibbles" and not b.generators[0].ifs:
+                SEG = name
+    if SEG is None:
+        ctx.unsure("refuse-nested:HexaryTrieFog.explore", f.loc(), "cannot find the validated segment list [Nibbles(s) for s in segments]")
+        return
     raises = [n for n in walk_shallow(f.node) if isinstance(n, ast.Raise)]
     kinds = {"unknown-parent": None, "duplicates": None, "nested": None}
     for r in raises:
@@ -625,7 +638,7 @@ def _check_explore_refusals(ctx, f, old):
         src = " ".join(ast.unparse(c).replace(" ", "") for c in conds)
         if h is not None and "KeyError" in ast.unparse(h.type or ast.Name(id="")):
             kinds["unknown-parent"] = r
-        elif "len(set(sub_segments))!=len(sub_segments)" in src or "len(sub_segments)!=len(set(sub_segments))" in src:
+        elif "len(set(%s))!=len(%s)" % (SEG, SEG) in src or "len(%s)!=len(set(%s))" % (SEG, SEG) in src:
             kinds["duplicates"] = r
         elif any(isinstance(c, ast.Compare) and isinstance(c.ops[0], ast.In) for c in conds):
             kinds["nested"] = (r, conds)
@@ -663,7 +676,7 @@ def _check_explore_refusals(ctx, f, old):
         if not inner or not outer:
             problems.append("prefix length / segment are not loop variables")
         else:
-            if not (isinstance(outer[0].iter, ast.Name) and outer[0].iter.id == "sub_segments"):
+            if not (isinstance(outer[0].iter, ast.Name) and outer[0].iter.id == SEG):
                 problems.append("outer loop does not run over every sub-segment")
             src = inner[0].iter
             sdef = only(src.id) if isinstance(src, ast.Name) else src
@@ -682,16 +695,22 @@ def _check_explore_refusals(ctx, f, old):
                 pdef = only(pool.id) if isinstance(pool, ast.Name) else pool
                 okp = (isinstance(pdef, (ast.SetComp, ast.ListComp, ast.GeneratorExp)) and not pdef.generators[0].ifs
                        and ast.unparse(pdef.elt).replace(" ", "") == "len(%s)" % (pdef.generators[0].target.id if isinstance(pdef.generators[0].target, ast.Name) else "?")
-                       and isinstance(pdef.generators[0].iter, ast.Name) and pdef.generators[0].iter.id == "sub_segments")
+                       and isinstance(pdef.generators[0].iter, ast.Name) and pdef.generators[0].iter.id == SEG)
                 if not okp:
                     problems.append("the pool of lengths `%s` is not {len(s) for every sub-segment}" % (ast.unparse(pdef)[:60] if pdef is not None else "?"))
-    if not (isinstance(intest.comparators[0], ast.Name) and intest.comparators[0].id == "sub_segments"):
+    if not (isinstance(intest.comparators[0], ast.Name) and intest.comparators[0].id == SEG):
         problems.append("membership is not tested against the full list of sub-segments")
     # guard that skips the check must be `len(all_lengths) > 1`
     outer_if = [n for n in walk_shallow(f.node) if isinstance(n, ast.If) and util.contains(n, r) and not any(isinstance(x_, ast.For) and util.contains(x_, n) for x_ in fors)]
+    pool_name = None
+    for name, bs in bind.items():
+        for b in bs:
+            if isinstance(b, (ast.SetComp, ast.ListComp)) and isinstance(b.generators[0].iter, ast.Name) and b.generators[0].iter.id == SEG \
+                    and isinstance(b.elt, ast.Call) and ast.unparse(b.elt.func) == "len":
+                pool_name = name
     for oi in outer_if:
         s = ast.unparse(oi.test).replace(" ", "")
-        if "all_lengths" in s and s not in ("len(all_lengths)>1", "len(all_lengths)>=2", "1<len(all_lengths)"):
+        if pool_name and pool_name in s and s not in ("len(%s)>1" % pool_name, "len(%s)>=2" % pool_name, "1<len(%s)" % pool_name):
             problems.append("the nested check is skipped unless `%s`" % ast.unparse(oi.test))
     if problems:
         ctx.bad(c, f.loc(r), problems[0], witness={"problems": problems})
@@ -741,18 +760,22 @@ def sib10(ctx, pid):
     c = "deserialize-shape:HexaryTrieFog.deserialize"
     problems = []
     dlit = None
+    pvar = None
+    enc = de.params[1]
     for n in walk_shallow(de.node):
-        if isinstance(n, ast.Assign) and isinstance(n.value, ast.Constant) and isinstance(n.value.value, bytes):
+        if isinstance(n, ast.Assign) and isinstance(n.value, ast.Constant) and isinstance(n.value.value, bytes) and isinstance(n.targets[0], ast.Name):
             dlit = n.value.value
+            pvar = n.targets[0].id
     if dlit is None:
         problems.append("no byte-string prefix literal")
     elif lit is not None and dlit != lit.encode():
         problems.append("prefix literals differ: serialize writes %r, deserialize expects %r" % (lit, dlit))
     src = ast.unparse(de.node).replace(" ", "")
-    if "encoded.startswith(serial_prefix)" not in src:
-        problems.append("the prefix is not checked with startswith")
-    if "encoded[len(serial_prefix):]" not in src:
-        problems.append("the payload is not cut at len(prefix)")
+    if pvar is not None:
+        if "%s.startswith(%s)" % (enc, pvar) not in src:
+            problems.append("the prefix is not checked with startswith")
+        if "%s[len(%s):]" % (enc, pvar) not in src:
+            problems.append("the payload is not cut at len(prefix)")
     if "ast.literal_eval(" not in src:
         problems.append("payload is not parsed with ast.literal_eval")
     gens = [n for n in walk_shallow(de.node) if isinstance(n, (ast.GeneratorExp, ast.ListComp, ast.SetComp))]
@@ -772,7 +795,8 @@ def sib10(ctx, pid):
     eq = ctx.P.cls(FOG).methods.get("__eq__")
     if eq is not None:
         s = ast.unparse(eq.node).replace(" ", "")
-        if "self._unexplored_prefixes==other._unexplored_prefixes" in s or "other._unexplored_prefixes==self._unexplored_prefixes" in s:
+        o_ = eq.params[1]
+        if "self._unexplored_prefixes==%s._unexplored_prefixes" % o_ in s or "%s._unexplored_prefixes==self._unexplored_prefixes" % o_ in s:
             ctx.ok("eq-by-set:HexaryTrieFog.__eq__", eq.loc(), "equality is equality of the unexplored sets", nontrivial=False)
         else:
             ctx.bad("eq-by-set:HexaryTrieFog.__eq__", eq.loc(), "fog equality is not equality of the unexplored sets")
